@@ -180,12 +180,12 @@ func c19stress(c *run.Ctx) {
 						switch r.Intn(14) {
 						case 0, 1:
 							az := w.Authorize(url.Values{"client_id": {"conf-a"}, "response_type": {pick(r, []string{"code", "code id_token", "code token"})}, "scope": {"openid offline fosite"}, "state": {"state-0123456789"},
-								"nonce": {"nonce-0123456789"}, "redirect_uri": {"https://app-a.example/cb"}}, world.Consent{})
+								"nonce": {"nonce-0123456789"}, "redirect_uri": {"https://app-a.example/cb"}, "code_challenge": {s256(goodVerifier)}, "code_challenge_method": {"S256"}}, world.Consent{})
 							p.add(&p.codes, az.Params.Get("code"))
 							p.add(&p.ats, az.Params.Get("access_token"))
 						case 2, 3:
 							if code := p.take(r, &p.codes); code != "" {
-								out := w.Token(url.Values{"grant_type": {"authorization_code"}, "code": {code}, "redirect_uri": {"https://app-a.example/cb"}}, a)
+								out := w.Token(url.Values{"grant_type": {"authorization_code"}, "code": {code}, "redirect_uri": {"https://app-a.example/cb"}, "code_verifier": {goodVerifier}}, a)
 								p.add(&p.ats, out.S("access_token"))
 								p.add(&p.rts, out.S("refresh_token"))
 							}
@@ -221,7 +221,7 @@ func c19stress(c *run.Ctx) {
 							}
 						case 11:
 							if r.Intn(2) == 0 {
-								out := w.PAR(url.Values{"client_id": {"conf-a"}, "response_type": {"code"}, "scope": {"fosite"}, "state": {"state-0123456789"}, "redirect_uri": {"https://app-a.example/cb"}}, a)
+								out := w.PAR(url.Values{"client_id": {"conf-a"}, "response_type": {"code"}, "scope": {"fosite"}, "state": {"state-0123456789"}, "redirect_uri": {"https://app-a.example/cb"}, "code_challenge": {s256(goodVerifier)}, "code_challenge_method": {"S256"}}, a)
 								p.add(&p.pars, out.S("request_uri"))
 							} else if u := p.take(r, &p.pars); u != "" {
 								az := w.Authorize(url.Values{"client_id": {"conf-a"}, "request_uri": {u}}, world.Consent{})
